@@ -351,7 +351,7 @@ theorem nd_wsDrop {w0 w : World} (c : Nat) (h : ND w0 w) : ND w0 (wsDrop w c) :=
   try dsimp only
   split
   · nd_auto
-  · split <;> nd_auto
+  · split <;> (try split) <;> nd_auto
 
 theorem nd_appClose {w0 w : World} (sid : Nat) (discard : Bool) (h : ND w0 w) : ND w0 (appClose w sid discard) := by
   unfold appClose
